@@ -6,7 +6,7 @@ from hypothesis import strategies as st
 import parso.python.tree as pytree
 import parso.tree as basetree
 
-from ..common import crash_signature, digest, first_tree_diff, grammar, has_error, nodes_preorder, parent_link_error, short
+from ..common import maybe_disturb, crash_signature, digest, first_tree_diff, grammar, has_error, nodes_preorder, parent_link_error, short
 from ..engine import Outcome, Prop
 from ..gen import text as T
 
@@ -83,6 +83,7 @@ class C19(Prop):
     def check(self, case):
         code, v = case['code'], case['version']
         g = grammar(v)
+        maybe_disturb(g, code, v)      # process history: an unfinished earlier call must not matter
         try:
             m = g.parse(code)
         except RecursionError:
